@@ -46,8 +46,8 @@ ASSUMPTIONS = [
     "radiometry over {0,10,40,45,80}, sad/ssd/census costs and bitmask costs: all sums exact in float32, so the "
     "comparison is exact",
     "shapes up to 6x7 (thorough 7x6), at most 2 masked pixels (thorough: 3 on 3x4), all placements, plus the "
-    "machine-level pipelines; images with a single row or column are excluded (the internal 3x3 median filter "
-    "raises on them, see the C10 undersized-image clause)",
+    "machine-level pipelines; images with a single row or column - including the sub-pixel shifted right image of a "
+    "2-column pair - are excluded (the internal 3x3 median filter raises on them: the C10 undersized-image clause)",
     "scalar disparity intervals only (a grid only changes the NaN pattern of the input volume), disparity magnitudes "
     "smaller than the image width (the matching cost step raises beyond, which is another property's finding)",
 ]
@@ -109,6 +109,8 @@ def spaces(tier, seed):
                 if min(ny, nx) < win:
                     continue
                 for subpix in ((1, 2) if quick else (1, 2, 4)):
+                    if subpix > 1 and nx < 3:
+                        continue  # the shifted right image has a single column (see ASSUMPTIONS)
                     for iv in intervals:
                         if max(abs(iv[0]), abs(iv[1])) >= nx:
                             continue  # the matching cost itself raises there (C02's business, see ASSUMPTIONS)
@@ -116,7 +118,7 @@ def spaces(tier, seed):
                         methods = ["sad"] if quick or subpix == 4 else ["sad", "ssd"]
                         for m in methods:
                             l0.append(_case(ny, nx, tab, [], [], win, subpix, iv, DISTS, TAUS,
-                                            kinds3 if m == "sad" else ["real"], m))
+                                            kinds3 if m == "sad" else ["real"], m, indep=tab in tabs[:2]))
     # ---- level 1: one masked pixel anywhere in either image
     l1 = []
     shapes1 = [((3, 4), (1, 3)), ((4, 5), (1, 3))] if quick else \
@@ -128,7 +130,7 @@ def spaces(tier, seed):
                     l1.append(_case(ny, nx, seed, lm, rm, win, subpix, (-1, 1), DISTS, TAUS, kinds3))
     # ---- level 2: two masked pixels
     l2 = []
-    shapes2 = [(3, 4)] if quick else [(3, 4), (4, 5), (5, 6)]
+    shapes2 = [(3, 4)] if quick else [(3, 4), (4, 5)]
     for (ny, nx) in shapes2:
         for i, (lm, rm) in enumerate(_pair_masks(ny, nx)):
             for subpix in (1, 2):
@@ -142,7 +144,7 @@ def spaces(tier, seed):
             lm, rm = [], []
             for sd, r, c in trio:
                 (lm if sd == 0 else rm).append([r, c, _mask_value(r, c, sd)])
-            for subpix in (1, 2):
+            for subpix in (1 + (len(l2b) + seed) % 2,):
                 l2b.append(_case(3, 4, seed + 2, lm, rm, 1, subpix, (-1, 1), DISTS, TAUS, ["real", "bits"],
                                  indep=False))
     # ---- level 3: the aggregation step inside the real machine
